@@ -5,7 +5,7 @@ from lib import common
 def run(ctx):
     quick = ctx.tier == "quick"
     ctx.build()
-    ctx.mc("Units", "MC_Units.cfg", require_actions=False)
+    ctx.mc("MC_Units", "MC_Units.cfg", require_actions=False)
     out = ctx.harness(["units", "--random", "6" if quick else "120"])
     scns = common.split_scenarios(out)
     for s, evs in scns:
